@@ -80,7 +80,7 @@ _CCW_ENS = {
 }
 
 contract("core.choose_compatible_weight",
-         props=["C08", "C04", "C06"],
+         props=["C08"],
          params=dict(bond_descriptors=List(Ref("BondDescriptor")), bond=NRef("BondDescriptor"), rng=GENERATOR),
          returns=INT,
          requires=["forall(lambda k: implies(0 <= k and k < len(bond_descriptors), bond_descriptors[k].weight >= 0))"],
